@@ -388,6 +388,20 @@ func cmdCheck(args []string) int {
 		if len(il) > 0 {
 			trusted = append(trusted, "inlined (body executed at the call site instead of a contract): "+strings.Join(il, ", "))
 		}
+		ro := map[string]bool{}
+		for _, c := range ctxs {
+			for k := range c.readonlyExt {
+				ro[k] = true
+			}
+		}
+		var rl []string
+		for k := range ro {
+			rl = append(rl, k)
+		}
+		sort.Strings(rl)
+		if len(rl) > 0 {
+			trusted = append(trusted, "library functions assumed read-only (no program memory changes, fresh unconstrained results): "+strings.Join(rl, ", "))
+		}
 	}
 	sort.Strings(functions)
 	extra := map[string]interface{}{
